@@ -736,6 +736,9 @@ func (w *World) stateKey() uint64 {
 		}
 	}
 	for _, c := range w.conns {
+		if c.gen != w.gen {
+			continue // connections of a stopped process
+		}
 		h ^= uint64(len(c.in))<<1 ^ uint64(c.brokerPos)<<20 ^ uint64(c.lost)<<40
 		h *= 1099511628211
 		if c.closed {
@@ -894,7 +897,12 @@ func (w *World) crash(dmg []damage) {
 	w.sch.mu.Unlock()
 	w.gen++
 	w.store = snap
-	w.xchsGen()
+	// the old generation's exchanges are gone with their process; what its
+	// goroutines still do to them while draining is not an observation
+	for _, x := range w.xchs {
+		x.closed = true
+		x.abandoned = true
+	}
 	w.curT = nil
 	if err := w.newClient(true); err != nil {
 		prop := "C02"
@@ -910,8 +918,6 @@ func (w *World) crash(dmg []damage) {
 	}
 	w.startActors(w.scn.Gens[w.gen-1])
 }
-
-func (w *World) xchsGen() {}
 
 func (w *World) startActors(specs []ActorSpec) {
 	for i := range specs {
@@ -956,11 +962,14 @@ func runExec(t *testing.T, scn *Scenario, prefix []int, pr pruner, trace bool) (
 			x.ToolErr = "panic in harness: " + msg
 		}
 	}()
-	oldBuf := 0
-	if scn.ReadBuf > 0 {
-		oldBuf = mqtt.VerifSetReadBufSize(scn.ReadBuf)
-		defer mqtt.VerifSetReadBufSize(oldBuf)
+	// every connection allocates a read buffer; the scenarios' payloads are tiny,
+	// so 4 KiB instead of 128 KiB unless the scenario is about the buffer size
+	rb := scn.ReadBuf
+	if rb == 0 {
+		rb = 4096
 	}
+	oldBuf := mqtt.VerifSetReadBufSize(rb)
+	defer mqtt.VerifSetReadBufSize(oldBuf)
 	synctest.Test(t, func(t *testing.T) {
 		w = &World{t: t, scn: scn, trace: trace}
 		w.sch = newSched()
